@@ -20,6 +20,7 @@ import sympy as sp
 
 from ..core import Check, AnalysisError
 from .. import repoindex as ri
+from .. import sites
 from ..cfg import CFG, resolve_guard
 from ..kpe import Interp, SymObj, ClassRef, FuncRef, UFunc, to_obj_array, S, OutsideFragment, KpeRaise
 from ..regions import RegionDecider, select_minmax
@@ -85,14 +86,15 @@ def _e_tolerance_chain(chk):
         kws = {k.arg: k.value for k in call.keywords}
         for name in ("rtol", "atol"):
             v = kws.get(name)
-            if v is None or not isinstance(v, ast.Constant):
+            cv = sites.const_value(smod, fn, v) if v is not None else None
+            if cv is None:
                 chk.fail("C05.e", f"{SH}::_SingleHitBackend._cross_event_driven[{name}]", f"the crossing integrator is built without a literal {name} ({ast.unparse(call)[:80]}): its accuracy is not tied to the correction tolerance")
                 continue
             n += 1
-            val = sp.Rational(str(v.value))
+            val = sp.Rational(str(cv))
             chk.check(val <= tol, "C05.e", f"{SH}::_SingleHitBackend._cross_event_driven[{name}]",
-                      f"the crossing integration runs with {name}={v.value}, looser than the default convergence tolerance {float(tol)}: a residual below tol is then below the "
-                      "integration error and the corrected orbit does not close to a small multiple of tol", sample=f"{name}={v.value} <= ConvergenceOptions.tol={float(tol)}")
+                      f"the crossing integration runs with {name}={cv}, looser than the default convergence tolerance {float(tol)}: a residual below tol is then below the "
+                      "integration error and the corrected orbit does not close to a small multiple of tol", sample=f"{name}={cv} <= ConvergenceOptions.tol={float(tol)}")
     chk.floor("literal tolerances of the crossing integrator", n, 2)
     # event location defaults
     ecls = next((c for c in omod.tree.body if isinstance(c, ast.ClassDef) and c.name == "EventOptions"), None)
